@@ -49,7 +49,19 @@ Theorem C04_payload_tamper_safe :
     end.
 Proof. exact payload_tamper_safe. Qed.
 
+(* --verify-header: the refusal condition of src/clone_cmd.rs (regenerated from the source on every run as a boolean
+   term over what its comparisons observe; HashSum equality only compares the common prefix) lets a clone proceed
+   only when the supplied value has the full length of the archive's header checksum AND agrees with it on that
+   length, i.e. equals it; and no file operation precedes the check. *)
+Theorem C04_pin_proceeds_only_if_equal : forall o,
+  pin_refuses o = false -> pin_len_differs o = false /\ pin_prefix_differs o = false.
+Proof. intros [[|] [|]]; cbn; intros Hr; try discriminate Hr; split; reflexivity. Qed.
+Theorem C04_pin_checked_before_output : pin_checked_before_output = true.
+Proof. reflexivity. Qed.
+
 Print Assumptions C04_payload_tamper_safe.
 Print Assumptions C04_header_accept_implies.
 Print Assumptions C04_header_only.
 Print Assumptions C04_pinned_header_identity.
+Print Assumptions C04_pin_proceeds_only_if_equal.
+Print Assumptions C04_pin_checked_before_output.
